@@ -959,3 +959,5 @@ def _run(world: World, plan):
                                              sig_requests, sig_steps])
 
 INFO['rule'] += ' Round-5 additions: askers without listening ports that pierce on request (portless), connect mode fallback / race, memory of received requests of 0..3 entries (store_amount).'
+
+INFO['rule'] += ' Round-6 additions: step break_dir (a sub directory of the share becomes a plain file after the scan: matches below it cannot be looked at, the rest is still answered).'
